@@ -428,6 +428,23 @@ def check_scaling(ctx):
                    f"scaled field is {e.show()}, not vmin + (vmax − vmin)·u")
     except NotAlgebraic as exc:
         ctx.undecided("AFFINE", site, (fi, rets[0]), str(exc))
+    if isinstance(data, ast.Name):
+        dn = data.id
+        bad = []
+        for s_ in fv.statements():
+            for c_ in ast.walk(s_) if not isinstance(s_, (ast.FunctionDef, ast.ClassDef)) else []:
+                if isinstance(c_, ast.Call):
+                    o = kwarg(c_, "out")
+                    if o is not None and U(o) == dn:
+                        bad.append((s_, c_))
+                    if isinstance(c_.func, ast.Attribute) and U(c_.func.value) == dn and c_.func.attr in ("clip", "fill", "sort", "put", "itemset", "partition") and kwarg(c_, "out") is not None:
+                        bad.append((s_, c_))
+            if isinstance(s_, (ast.Assign, ast.AugAssign)):
+                t_ = s_.targets[0] if isinstance(s_, ast.Assign) else s_.target
+                if isinstance(t_, ast.Subscript) and U(t_.value) == dn:
+                    bad.append((s_, t_))
+        ctx.decide(not bad, "AFFINE", site + ":in-place", (fi, bad[0][0]) if bad else fi, "the scaled field is returned as computed",
+                   f"`{U(bad[0][1])[:70] if bad else ''}` modifies the scaled field in place after the affine map (e.g. clipping to [vmin, vmax] collapses the field to a constant for an inverted pair vmin > vmax): the field is no longer vmin + (vmax − vmin)·u")
     ctx.decide(g is not None and U(g) == fi.params[1], "AFFINE", site + ":grid", (fi, rets[0]), "field lives on the grid it was rendered on",
                f"returned field uses grid `{U(g) if g is not None else None}`")
 
@@ -523,3 +540,75 @@ def check_sum_clip(ctx):
 
 def in_stmt(outer, inner) -> bool:
     return inner is not None and any(x is inner for x in ast.walk(outer))
+
+
+def _factors(n):
+    """multiset of multiplicative factors of an expression (unparsed, sorted)"""
+    out = []
+
+    def rec(x):
+        if isinstance(x, ast.BinOp) and isinstance(x.op, ast.Mult):
+            rec(x.left)
+            rec(x.right)
+        else:
+            out.append(U(x))
+
+    rec(n)
+    return sorted(out)
+
+
+def check_real_harmonics(ctx):
+    """spherical_harmonic_real: the three order branches follow the standard definition of real
+    spherical harmonics and the m > 0 and m < 0 branches agree with each other"""
+    from ..astutil import branch_table
+
+    m = ctx.model
+    fi = m.func(f"{SPH}.spherical_harmonic_real")
+    site = fi.qualname
+    p = fi.params
+    if len(p) != 4:
+        ctx.undecided("HARMONIC", site, fi, "signature changed")
+        return
+    l_, m_, th, ph = p
+    table, default = branch_table(fi.node.body)
+    got = {}
+    for test, body in table + [(None, default)]:
+        rets = [x for x in body if isinstance(x, ast.Return)]
+        if not rets:
+            continue
+        if test is None:
+            key = "else"
+        else:
+            cp = compare_parts(test)
+            key = f"{type(cp[1]).__name__}:{U(cp[2])}" if cp and U(cp[0]) == m_ else U(test)
+        got[key] = (_factors(rets[0].value), rets[0])
+    pos = got.get("Gt:0")
+    zero = got.get("Eq:0")
+    neg = got.get("Lt:0") or got.get("else")
+    if not (pos and zero and neg):
+        ctx.undecided("HARMONIC", site, fi, f"branches on the order not recognised: {sorted(got)}")
+        return
+    want_pos = sorted([f"(-1) ** {m_}", "np.sqrt(2)", f"np.real(sph_harm_y({l_}, {m_}, {th}, {ph}))"])
+    want_zero = [f"np.real(sph_harm_y({l_}, 0, {th}, {ph}))"]
+    want_neg = sorted([f"(-1) ** {m_}", "np.sqrt(2)", f"np.imag(sph_harm_y({l_}, -{m_}, {th}, {ph}))"])
+    ctx.decide(pos[0] == want_pos, "HARMONIC", site + ":m>0", (fi, pos[1]), "Y_lm = (−1)^m √2 Re Y_l^m for m > 0",
+               f"factors for m > 0 are {pos[0]}, the real spherical harmonic is (−1)^m·√2·Re Y_l^m: the sign is wrong for modes whose degree and order differ in parity (e.g. l=2, m=1), mirroring the rendered shape")
+    ctx.decide(zero[0] == want_zero, "HARMONIC", site + ":m=0", (fi, zero[1]), "Y_l0 = Re Y_l^0", f"factors for m = 0 are {zero[0]}")
+    ctx.decide(neg[0] == want_neg, "HARMONIC", site + ":m<0", (fi, neg[1]), "Y_lm = (−1)^m √2 Im Y_l^|m| for m < 0", f"factors for m < 0 are {neg[0]}, expected (−1)^m·√2·Im Y_l^|m|")
+    # mode index ↔ (degree, order)
+    lm = m.func(f"{SPH}.spherical_index_lm")
+    rets = [x for x in ast.walk(lm.node) if isinstance(x, ast.Return)]
+    k = lm.params[0]
+    fvl = view(m, lm)
+    ok = len(rets) == 1 and U(fvl.expand(rets[0].value, rets[0])).replace(" ", "") == f"(int(np.floor(np.sqrt({k}))),{k}-int(np.floor(np.sqrt({k})))*(int(np.floor(np.sqrt({k})))+1))"
+    ctx.decide(ok, "HARMONIC", lm.qualname, lm, "mode k ↦ (l = ⌊√k⌋, m = k − l(l+1))", "spherical_index_lm is not (floor(sqrt(k)), k − l(l+1))")
+    rk = m.func(f"{SPH}.spherical_harmonic_real_k")
+    rets = [x for x in ast.walk(rk.node) if isinstance(x, ast.Return)]
+    pk = rk.params
+    ok = len(rets) == 1 and U(rets[0].value).replace(" ", "") in (f"spherical_harmonic_real(*spherical_index_lm({pk[0]}),θ={pk[1]},φ={pk[2]})", f"spherical_harmonic_real(*spherical_index_lm({pk[0]}),{pk[1]},{pk[2]})")
+    ctx.decide(ok, "HARMONIC", rk.qualname, rk, "mode k is evaluated as the real harmonic of its (degree, order)", "spherical_harmonic_real_k does not evaluate spherical_harmonic_real(*spherical_index_lm(k), θ, φ)")
+    sy = m.func(f"{SPH}.spherical_harmonic_symmetric")
+    rets = [x for x in ast.walk(sy.node) if isinstance(x, ast.Return)]
+    ps = sy.params
+    ok = len(rets) == 1 and U(rets[0].value).replace(" ", "") in (f"np.real(sph_harm_y({ps[0]},0,{ps[1]},0.0))", f"np.real(sph_harm_y({ps[0]},0,{ps[1]},0))")
+    ctx.decide(ok, "HARMONIC", sy.qualname, sy, "axisymmetric harmonic = Re Y_l^0(θ, 0)", "spherical_harmonic_symmetric is not Re Y_l^0(θ, 0)")
